@@ -518,6 +518,14 @@ def cells_by_probing(wfslib, subaps, n0, n1):
     return owner
 
 
+def _flt(x):
+    """float(x) for messages; exact rationals beyond the binary64 range print as ±inf instead of raising"""
+    try:
+        return float(x)
+    except OverflowError:
+        return float("inf") if x > 0 else float("-inf")
+
+
 def oracle(chk, quick):
     from aotools.functions.pupil import circle
     from aotools.wfs import wfslib
@@ -549,7 +557,7 @@ def oracle(chk, quick):
                             continue                          # binary64 rounding may decide a near-tie either way
                         bad("circle:indicator:%s%s" % (origin, ":tie" if mg == 0 else ""),
                             "circle(%r,%d,(%r,%r),%r)[%d,%d]=%g but the pixel centre (%s,%s) is at squared distance r²%+g from the centre"
-                            % (r, n, cx, cy, origin, i, j, got[i, j], j + .5, i + .5, float(mg)), pixel=[i, j], **rep)
+                            % (r, n, cx, cy, origin, i, j, got[i, j], j + .5, i + .5, _flt(mg)), pixel=[i, j], **rep)
                         break
                 else:
                     continue
